@@ -60,10 +60,10 @@ Proof.
   revert h. induction ops as [|o ops IH]; intros h Hg Hc; [exact Hc|].
   cbn [fold_left]. apply IH.
   - intros v Hin. apply Hg. right. exact Hin.
-  - destruct o as [c| |v| |b| |]; cbn;
+  - destruct o as [c| |v| |b| | |]; cbn;
       [exact Hc | apply conn_clean_set_close; exact Hc
       | apply conn_clean_set_conn; [apply Hg; left; reflexivity|exact Hc]
-      | exact Hc | exact Hc | exact Hc | exact Hc].
+      | exact Hc | exact Hc | exact Hc | exact Hc | exact Hc].
 Qed.
 
 Lemma run_handler_clean ops st0 : ops_guard ops -> conn_clean (h_rh (run_handler ops (hstate0 st0))).
